@@ -258,7 +258,7 @@ class C15(Check):
     comp = 'Json'
     extracted = ['coq/Json/model.mli', 'coq/Json/model.ml', 'ocaml/zconv.ml', 'ocaml/json_driver.ml']
     harness_sources = ['harness/json.cpp']
-    per_case_timeout = 30           # toString of a tree nested 1000 deep takes 2..5 s under ASan on an idle machine (String growth is not geometric)
+    per_case_timeout = 10           # see run_impl: 30 s for pieces with very long op lines
     level_text = ('Theorems in Coq about an executable model that mirrors src/Document/Json.cpp decision by decision (cursor = remaining '
                   'bytes + line over a NUL-terminated text, every `++pos.pos` a checked advance, loops with explicit fuel): parse never runs '
                   'out of fuel 2*length+3 and never steps past the terminator for every byte string; a reported (line, column) is the '
@@ -340,26 +340,30 @@ class C15(Check):
     assumptions = ['libc printf("%d"/"%lld"), atoll, sscanf("%x"), strpbrk behave as the reference functions of JsonModel.v (print_dec, ref_atoll, scanf_hex - checked on op xscan, find_one_of)',
                    'Variant/HashMap/List/String behave as value trees with an insertion-ordered map (checked by the dump of every parsed tree); Variant::clear() empties the target',
                    'fewer than 2^31 line breaks in a text (the code counts lines in an int, the model in Z)',
-                   'a tree on which the implementation crashes or hangs on nearly every case is given up early (crash weight 150 per stream, 300 over all streams; hang = 30): the cases not run are not judged']
+                   'a tree on which the implementation crashes or hangs on nearly every case is given up early (crash weight 150 per stream, 300 over all streams; crash = 1, hang = its watchdog seconds, 10 or 30): the cases not run are not judged']
 
     def run_impl(self, cases, tag='impl'):
         """as Check.run_impl, but in pieces, so that a tree on which the implementation crashes or hangs on (nearly) every case
-        (every crash restarts the harness, every hang costs per_case_timeout seconds) is given up early: a stream starts with a
-        piece of 30 cases and goes on in pieces of 300 while crashes keep coming; a crash weighs 1, a hang 30 (= its seconds); at weight 150 the
-        rest of the stream is not run, at weight 300 over all streams the remaining streams are not run at all (vf drops cases
-        marked `! notrun`; what has been seen by then is reported)"""
+        (every crash restarts the harness, every hang costs the watchdog's seconds) is given up early: a stream starts with a
+        piece of 8 cases and goes on in pieces of 300 while crashes keep coming and of 4 while hangs keep coming; a crash weighs 1,
+        a hang its seconds; at weight 150 the rest of the stream is not run, at weight 300 over all streams the remaining streams
+        are not run at all (vf drops cases marked `! notrun`; what has been seen by then is reported).  The watchdog is 10 s per
+        case, 30 s for pieces that hold an op line of more than 2000 characters (toString of a tree nested 1000 deep takes 2..5 s
+        under ASan on an idle machine: String growth is not geometric)"""
         import vf
         rundir = os.path.join(vf.BUILD, self.id, 'run')
-        res, crashes, i, weight, size = [], {}, 0, 0, 30
+        rerun = tag.startswith('shr_')                        # vf re-runs a case it is about to report: outside the budget
+        res, crashes, i, weight, size = [], {}, 0, 0, 8
         while i < len(cases):
-            if not tag.startswith('shr_') and (weight >= 150 or getattr(self, '_crash_weight', 0) >= 300):      # shr_: re-run of a reported case
+            if not rerun and (weight >= 150 or getattr(self, '_crash_weight', 0) >= 300):
                 vf.log('[C15] %s: too many crashes / hangs (weight %d, all streams %d): remaining %d cases not run' % (
                     tag, weight, getattr(self, '_crash_weight', 0), len(cases) - i))
                 res += [['! notrun'] for _ in cases[i:]]
                 break
             chunk = cases[i:i + size]
+            tmo = 30 if any(len(l) > 2000 for c in chunk for l in c) else 10
             try:
-                r, c = vf.run_exe_on_cases(self.exes['impl'], chunk, rundir, tag, is_impl=True, per_case_timeout=self.per_case_timeout)
+                r, c = vf.run_exe_on_cases(self.exes['impl'], chunk, rundir, tag, is_impl=True, per_case_timeout=tmo)
             except RuntimeError:
                 if size <= 300:
                     raise
@@ -369,12 +373,13 @@ class C15(Check):
             res += r
             for k, v in c.items():
                 crashes[i + k] = v
-            w = sum(30 if v[0] == 'timeout' else 1 for v in c.values())
+            hangs = sum(1 for v in c.values() if v[0] == 'timeout')
+            w = hangs * tmo + (len(c) - hangs)
             weight += w
-            if not tag.startswith('shr_'):
+            if not rerun:
                 self._crash_weight = getattr(self, '_crash_weight', 0) + w
             i += len(chunk)
-            size = 300 if (w > 3 or weight > 20) else 20000
+            size = 4 if hangs else 300 if (w > 3 or weight > 20) else 20000
         return res, crashes
 
     def _deep(self, f, cases, tag):
